@@ -151,7 +151,8 @@ def run(tier):
             for fname, nm, n, ix in touched:
                 # the instance is the shared object (file + variable), not the function that happens to touch it: splitting
                 # the lookup into helpers neither creates nor removes the race
-                key = '%s|%s' % (os.path.relpath(n['_file'], REPO), 'g_iface_states' if nm == LIST else nm)      # (canonical label for the list head)
+                # the list head of interface records is one instance whatever it is called and wherever it lives
+                key = 'interface-record-list' if nm == LIST else '%s|%s' % (os.path.relpath(n['_file'], REPO), nm)
                 rep.check(locked or not in_loop, 'R17.3', key,
                           '%s: start routine %s (one thread per interface, created in a loop in %s) reaches %s, which reads/writes the shared `%s` without any lock - '
                           'two interfaces receiving their first frames together race on the list head' % (main, sname, creator, fname, nm), node=n, function=fname)
